@@ -816,8 +816,43 @@ def generate(ctx: Ctx, scale: int, rng):
                     eval_case(ctx, c)
                     ctx.count("sweep.rdata.wire")
     otypes = [int(o) for o in dns.edns.OptionType] + [0, 4, 14, 16, 17, 65001]
+    UTF8 = ["", "en", "fr-\u00e7a", "\u00fc", "zh-\u4e2d\u6587", "\U0001f600", "a\x00b", "caf\u00e9 \u2713", "x" * 300, "\x7f", "\n", "q\r\n"]
+
+    def structured_option_body(ot):
+        """well-formed bodies of every implemented option: text carrying ones with valid non-ASCII UTF-8, ECS with every
+        family/prefix shape, cookies of every legal length, EDE with and without text, a name for REPORT-CHANNEL"""
+        import struct as _st
+        txt = rng.choice(UTF8).encode("utf-8")
+        if ot == 8:
+            fam = rng.choice([1, 1, 2, 2, 0, 3])
+            bits = rng.choice([0, 1, 7, 8, 9, 21, 24, 32, 33, 56, 64, 127, 128, 129])
+            nb = (bits + 7) // 8
+            return _st.pack("!HBB", fam, bits, rng.choice([0, 0, bits, 255])) + rng.bytes(nb + rng.choice([0, 0, 0, 1]) - rng.choice([0, 0, 0, 1]) if nb else 0)
+        if ot == 10:
+            return rng.bytes(8) + rng.bytes(rng.choice([0, 0, 8, 16, 32, 7, 33]))
+        if ot == 15:
+            return _st.pack("!H", rng.choice([0, 1, 24, 29, 65535])) + rng.choice([b"", txt, txt + b"\0", txt + b"\0\0"])
+        if ot == 18:
+            return rng.choice([b"\x05agent\x07example\x00", b"\x00", b"\xc0\x00", b"\x05agent"])
+        if ot == 3:
+            return rng.choice([txt, rng.bytes(rng.below(10))])
+        return txt
+
     for _ in range(n(800)):
-        c = {"kind": "edns.wire", "otype": rng.choice(otypes), "wire": rng.bytes(rng.choice([0, 1, 2, 3, 4, 5, 8, 9, 12, 20])).hex()}
+        ot = rng.choice(otypes)
+        body = structured_option_body(ot) if rng.chance(1, 2) else rng.bytes(rng.choice([0, 1, 2, 3, 4, 5, 8, 9, 12, 20]))
+        if rng.chance(1, 3):
+            # the same option inside the OPT record of a message (parsing hashes the OPT rdata, i.e. re-encodes every option)
+            import struct as _st
+            opt_rdata = _st.pack("!HH", ot, len(body)) + body
+            w = _st.pack("!HHHHHH", rng.below(65536), 0x8000, 0, 0, 0, 1) + b"\x00" + _st.pack("!HHIH", 41, 1232, 0, len(opt_rdata)) + opt_rdata
+            c2 = {"kind": "msg", "wire": w.hex(), "opts": {}}
+            ctx.case(("msg-opt", ot, body))
+            eval_case(ctx, c2)
+            c3 = {"kind": "rdata.wire", "rdclass": 1232, "rdtype": 41, "wire": opt_rdata.hex(), "origin": 0}
+            ctx.case(("rw-opt", ot, body))
+            eval_case(ctx, c3)
+        c = {"kind": "edns.wire", "otype": ot, "wire": body.hex()}
         ctx.case(("ew", c["otype"], c["wire"]), sample=c)
         eval_case(ctx, c)
     # --- text
